@@ -284,13 +284,15 @@ Fixpoint fdiv_loop (i : nat) (n d q : Z) : Z :=
   end.
 Definition fdiv (n d : Z) : Z := fdiv_loop 56 n d 0.
 
-Definition try_sh (num den sh : Z) : option (Z * Z) :=
-  let '(n, d) := scaled num den sh in
-  let q := fdiv n d in
+(* q is a candidate quotient of n by d; accepted only if it is the quotient and has the right size *)
+Definition accept_q (q n d sh : Z) : option (Z * Z) :=
   let r := n - q * d in
   if (0 <=? r) && (r <? d) &&
      (((2 ^ 52 <=? q) && (q <? 2 ^ 53)) || ((sh =? -1074) && (0 <=? q) && (q <? 2 ^ 52)))
   then Some (round_qr q r d, sh) else None.
+
+Definition try_sh (num den sh : Z) : option (Z * Z) :=
+  let '(n, d) := scaled num den sh in accept_q (fdiv n d) n d sh.
 
 Definition dec_num (m e : Z) : Z := if 0 <=? e then m * 10 ^ e else m.
 Definition dec_den (e : Z) : Z := if 0 <=? e then 1 else 10 ^ (- e).
